@@ -11,7 +11,7 @@ RULE = ("random fit/score call histories (4-10 calls quick, up to 20 thorough) o
         "SelectKBest(k=1), or both, own or shared between the objects; a neighbor object with a pipeline gets "
         "a distance callable that computes the matrix from the extracted features it is handed) sharing datasets, provenance objects (none, conjunctions, unit id arrays, and "
         "explicit 3-candidate map/fork provenances Provenance(units, candidates=3, data=[[unit, candidate], ...]) in which a unit owns rows under two candidate values, so "
-        "that the full coalition of the default world does NOT select every training row) and one utility (accuracy, "
+        "that the full coalition of the default world does NOT select every training row; in most of them the rows absent from that world are shifted away from the rest) and one utility (accuracy, "
         "equalized-odds difference, or ROC-AUC with neighbor-only objects; its model object is watched); the histories contain steps in which the CALLER edits a dataset's "
         "training arrays in place (a row of X 'repaired', a label flipped, the label array replaced by a new object) between a score and the next fit, followed by re-fits that "
         "pass the same array OBJECT with changed contents / changed labels (the data-repair loop; part of the histories open with fit, score, in-place repair, fit with the same "
@@ -67,6 +67,12 @@ def run(ctx):
                 n = mc["n_rows"]
             X = np.round(nprng.randn(n, 2), 3)
             X[:, 1] = (X[:, 1] > 0).astype(float)           # a binary 'sensitive' column (used by the equalized-odds utility)
+            if mc is not None and rng.random() < 0.6:
+                # the versions of a record that are absent from the default world are the dirty ones: their numeric feature is off by a few units, so
+                # statistics of the whole training set differ visibly from statistics of the rows of the full coalition
+                for r in range(n):
+                    if not mc["present"][r]:
+                        X[r, 0] = round(X[r, 0] + rng.choice([-1, 1]) * rng.uniform(2, 6), 3)
             y = np.array([i % 2 for i in range(n)])
             nprng.shuffle(y)
             m = rng.randint(2, 3)
